@@ -70,6 +70,17 @@ Theorem C05_vi_fixup : forall s,
 Proof. exact fix_vi_rests. Qed.
 Print Assumptions C05_vi_fixup.
 
+(* L2 + L4 - after every command the key processor completes for a modelled
+   handler (returned normally, or its EditReadOnlyBuffer was swallowed - the
+   fix-up runs on that path too since commit aacfec4): if Vi is then in
+   navigation mode the cursor does not rest past the last character of a
+   non-empty line. *)
+Theorem C05_vi_rule_after_command_partial : forall h s arg data s',
+  EInv s -> call_handler h s arg data = EOk s' ->
+  vi_navigation_mode s' = true -> rests_past_end s' = false.
+Proof. exact call_handler_rests. Qed.
+Print Assumptions C05_vi_rule_after_command_partial.
+
 (* L3 - over the regenerated table: in Vi mode, buffer focused, outside a
    quoted insert, for EVERY valuation of the filter atoms, a key buffer holding
    [Escape] is dispatched at once (flush or not) to a row whose handler is
